@@ -87,7 +87,9 @@ def run(job, seed):
         # four enforcers per enforce_scope value: override yes/no x check
         for enforce_scope in (True, False):
             for check_allows in (True, False):
-                good = 'role:r'
+                # decides as role:r; the second operand (target key never
+                # present) only puts a %(...)s template into the rule's text
+                good = "role:r or 'never':%(missing_key)s"
                 # check_allows is realised by giving or withholding role r
                 for override in (False, True):
                     for d in ('policy.yaml',):
@@ -108,7 +110,7 @@ def run(job, seed):
                         if how == 'object' and override:
                             continue
                         if how == 'object':
-                            chk = _parser.parse_rule('role:r')
+                            chk = _parser.parse_rule(good)
                             chk.scope_types = list(st) if st else None
                             rule = chk
                         else:
